@@ -379,7 +379,36 @@ def _norm(v):
     return v
 
 
-def check_config(case):
+def _vandalise(obj, depth=0):
+    """Overwrite everything reachable in a returned configuration in place: whatever a later
+    parse hands out must not be affected (no mutable defaults shared between parses)."""
+    if depth > 4:
+        return
+    if isinstance(obj, dict):
+        for k in list(obj):
+            v = obj[k]
+            if isinstance(v, (dict, list)):
+                _vandalise(v, depth + 1)
+            obj[k] = "vandalised"
+        obj["extra_key"] = 1
+    elif isinstance(obj, list):
+        for v in obj:
+            if isinstance(v, (dict, list)):
+                _vandalise(v, depth + 1)
+        obj.append("vandalised")
+
+
+def check_config_sequence(case):
+    """Several configurations parsed one after the other in one process, the returned
+    dictionaries being overwritten in between: every parse satisfies the single-parse oracle."""
+    n_non = 0
+    for sub in case["cfgs"]:
+        info = check_config(sub, vandalise=True)
+        n_non += bool(info["nontrivial"])
+    return {"nontrivial": len(case["cfgs"]) >= 2 and n_non >= 1, "labels": [f"parses{len(case['cfgs'])}"], "residual": 0.0}
+
+
+def check_config(case, vandalise=False):
     tmp = tempfile.mkdtemp(prefix="c19_")
     cwd = os.getcwd()
     try:
@@ -437,6 +466,8 @@ def check_config(case):
             (case["name"] is None) + (case["phases"] is None) + (case["fabric"] is None) + (len(PARAM_KEYS) - len(case["pkeys"]))
             + sum(case[k] is None for k in ("directory", "raw_output", "diagnostics", "anisotropy", "out_paths", "log_level", "strain_final"))
         )
+        if vandalise:
+            _vandalise(cfg)
         return {"nontrivial": n_omitted >= 1, "labels": [case["mode"], f"phases:{case['phases']}", "no_output" if not case["output_present"] else "output"], "residual": 0.0}
     finally:
         os.chdir(cwd)
@@ -485,5 +516,12 @@ ORACLES = [
     ),
     Oracle("presets_exhaustive", st.just({}), check_presets, quick=1, thorough=1),
     Oracle("config_defaults", config_case(), check_config, classify=classify_cfg, quick=250, thorough=5000),
+    Oracle(
+        "config_sequence",
+        st.fixed_dictionaries({"cfgs": st.lists(config_case(), min_size=2, max_size=4)}),
+        check_config_sequence,
+        quick=60,
+        thorough=1000,
+    ),
     Oracle("config_faults", fault_case(), check_config_fault, classify=lambda c: c["fault"], quick=200, thorough=3000),
 ]
